@@ -73,6 +73,7 @@ def run(ctx):
     loop = vloop.VLoop().install()
     rows = []
     owns = []
+    devs_at = {}
     OWN = 0x1A2B
     try:
         app = shim.make_app()
@@ -119,6 +120,22 @@ def run(ctx):
                     tk.cancel()
                     loop.settle()
                 frame = ezsplib.spec_header(version, cb_seq, im_id) + build_incoming(version, im_rx, v)
+                # what the application already knows about devices plays no role either: the sender's long address may be in
+                # the device table under another short address (it rejoined), under the same one, or the short address may
+                # belong to another device
+                rd = rng.random()
+                if rd < 0.3:
+                    try:
+                        ieee = zt.EUI64.deserialize(bytes(v["eui64"]))[0]
+                        if rd < 0.15:
+                            app.add_device(ieee, zt.NWK((v["sender"] + rng.randint(1, 0xFFF0)) % 0xFFF8))
+                        elif rd < 0.22:
+                            app.add_device(ieee, zt.NWK(v["sender"]))
+                        else:
+                            app.add_device(zt.EUI64.deserialize(bytes(rng.getrandbits(8) for _ in range(8)))[0], zt.NWK(v["sender"]))
+                        ctx.count("device-table-entry-for-sender")
+                    except Exception:  # noqa: BLE001 - the device table is zigpy's; if it refuses, the callback is still judged
+                        ctx.count("device-table-entry-refused")
                 # the radio's own address is whatever the application state holds *now*: it changes between callbacks,
                 # in place or (as load_network_info does) by replacing the node-info object
                 r = rng.random()
@@ -138,6 +155,11 @@ def run(ctx):
                     esc = type(x).__name__
                 rows.append((version, "msg", frame, v, list(rec), esc))
                 owns.append(OWN)
+                try:
+                    _ie = zt.EUI64.deserialize(bytes(v["eui64"]))[0]
+                    devs_at[len(rows) - 1] = [[hx(d.ieee.serialize()), int(d.nwk)] for d in app.devices.values() if d.ieee == _ie or int(d.nwk) == v["sender"]]
+                except Exception:  # noqa: BLE001
+                    pass
                 # the translation has no memory: the same callback again (a retransmission seen twice, a wrapped
                 # APS counter), or another message from the same sender with the same APS counter, is translated
                 # again, on its own
@@ -219,7 +241,7 @@ def run(ctx):
         if impl != spec or others:
             ctx.violation(f"v{version} {kind} callback: application produced {impl[:200]} (others {others[:2]}), expected {spec[:200]}",
                           {"kind": kind, "version": version},
-                          {"version": version, "kind": kind, "frame": hx(frame), "own": OWN, "spec": spec,
+                          {"version": version, "kind": kind, "frame": hx(frame), "own": OWN, "spec": spec, "devices": devs_at.get(i, []),
                            # what the same application object was given before (the translation must not depend on it)
                            "history": [hx(r[2]) for r in rows[max(0, i - 80):i] if r[0] == version]})
         if model is not None and model[i] != impl:
@@ -227,7 +249,7 @@ def run(ctx):
         if i % 400 == 0:
             ctx.sample({"version": version, "kind": kind, "frame": hx(frame)[:80], "impl": impl[:160], "model": model[i][:160] if model else None})
     ctx.cov["rule"] = ("for every version 4..14: incomingMessageHandler frames with message types 0..6 and undefined ones, random APS fields, payload lengths 0..100, RSSI extremes, the radio's own address changing between callbacks (in place or by replacing the node-info object); "
-                       "callbacks carrying the sequence number of a command its caller abandoned; every third callback followed by the same callback again or by another message of the same sender with the same APS counter; trustCenterJoinHandler frames over all status x decision classes, 40 % from the vendors whose join starts the manufacturer-code override, following each other while that override is pending; encoded by role from the version's schema order, pushed through the real receive path and the real callback handler")
+                       "the sender's EUI64 / short address already in the application's device table under another / the same address (30 %); callbacks carrying the sequence number of a command its caller abandoned; every third callback followed by the same callback again or by another message of the same sender with the same APS counter; trustCenterJoinHandler frames over all status x decision classes, 40 % from the vendors whose join starts the manufacturer-code override, following each other while that override is pending; encoded by role from the version's schema order, pushed through the real receive path and the real callback handler")
     ctx.exhaustive = False
 
 
@@ -244,7 +266,7 @@ def replay(ctx, obj):
     try:
         app = shim.make_app()
         rec = []
-        app.packet_received = lambda p: rec.append("P")
+        app.packet_received = lambda p: rec.append(f"P src={int(p.src.address)}")
         app.handle_join = lambda *a, **k: rec.append("J")
         app.handle_leave = lambda *a, **k: rec.append("L")
         app.state.node_info.nwk = zt.NWK(r["own"])
@@ -259,6 +281,11 @@ def replay(ctx, obj):
             return [0]
 
         e.setManufacturerCode = _set_mfg
+        for ie, nw in r.get("devices", []):
+            try:
+                app.add_device(zt.EUI64.deserialize(bytes.fromhex(ie))[0], zt.NWK(nw))
+            except Exception:  # noqa: BLE001
+                pass
         for h in r.get("history", []):
             try:
                 e.frame_received(bytes.fromhex(h))
@@ -269,6 +296,8 @@ def replay(ctx, obj):
     finally:
         loop.shutdown()
     want = r["spec"][0] if r["spec"] != "none" else None
+    if want == "P":
+        want = r["spec"].split(" sep=")[0]
     bad = None if (rec == ([want] if want else [])) else f"recorded {rec}, expected {want}"
     print(f"replay v{r['version']} {r['kind']}: {'FAILS: ' + bad if bad else 'ok (kind-level replay)'}")
     if bad:
